@@ -35,7 +35,7 @@ theorem c11_int_strictTotal : StrictTotal ltI where
   trans a b c h1 h2 := by simp only [ltI, decide_eq_true_eq] at *; omega
   tri a b h1 h2 := by simp only [ltI, decide_eq_false_iff_not] at *; omega
 
-theorem cI_lawful : cI.Lawful := c11_ofLt_lawful ltI c11_int_strictTotal
+theorem c11_cI_lawful : cI.Lawful := c11_ofLt_lawful ltI c11_int_strictTotal
 
 /-! ## the definition
 
@@ -288,8 +288,8 @@ theorem c11_service_single_objective {c : Cmp Î²} (h : c.Lawful) {neg : Î² â†’ Î
 /-- the driver's order operations: `-x`, `Â±inf` as extreme integers -/
 def oI : OrderOps Int := { cmp := cI, neg := fun a => -a, top := 1000000000, bot := -1000000000 }
 
-theorem oI_lawful : oI.Lawful where
-  cmp := cI_lawful
+theorem c11_oI_lawful : oI.Lawful where
+  cmp := c11_cI_lawful
   neg := by
     intro a b
     simp only [oI, cI, Cmp.ofLt, ltI]
